@@ -318,6 +318,18 @@ def tlv_edits(wire: bytes):
     return out
 
 
+_LONG = None
+
+
+def long_packets():
+    global _LONG
+    if _LONG is None:
+        from mc.ndnenv import owned_env as _oe, FixedClock
+        with _oe(clock=FixedClock(), seed=9):
+            _LONG = list(mutation_space('quick', 'long-build'))
+    return _LONG
+
+
 def mutation_space(tier, which):
     """deterministic generator of (label, bytes)"""
     cp = corpus()
@@ -352,6 +364,30 @@ def mutation_space(tier, which):
         for a in range(256):
             for b in range(256):
                 yield f'{a:02x}{b:02x}', bytes([a, b])
+    elif which == 'long':
+        yield from long_packets()
+    elif which == 'long-build':
+        # well-formed packets whose names carry very long components of every kind of component type: nothing in the receive
+        # path (matching, digest checks, rendering a name for a log line) may fail on them
+        ip = enc.InterestParam(nonce=3, lifetime=100)
+        for clabel, comp in (('seg-1787', ts.tlv(0x32, b'\x01' * 1787)), ('v-65535', ts.tlv(0x36, b'\xff' * 65535)), ('generic-65536', ts.tlv(8, b'g' * 65536)),
+                             ('seq-9', ts.tlv(0x3a, b'\x01' * 9)), ('digest-typed-40', ts.tlv(1, b'\x00' * 40)), ('params-typed-3', ts.tlv(2, b'\x01\x02\x03')),
+                             ('type-65535', ts.tlv(65535, b'x' * 300)), ('keyword-2000', ts.tlv(0x20, b'k' * 2000))):
+            for prefix in ('th', 'tv', 't'):
+                name = [ts.tlv(8, prefix.encode()), comp]
+                builders = (('interest', lambda: enc.make_interest(name, ip)), ('interest-params', lambda: enc.make_interest(name, ip, b'pp')),
+                            ('interest-signed', lambda: enc.make_interest(name, ip, b'pp', DigestSha256Signer(for_interest=True))),
+                            ('data', lambda: enc.make_data(name, enc.MetaInfo(freshness_period=10), b'c', DigestSha256Signer())),
+                            ('nack', lambda: enc.make_network_nack(bytes(enc.make_interest(name, ip)), 150)))
+                for kind, build in builders:
+                    try:
+                        wire = bytes(build())
+                    except ValueError:
+                        # the encoder refuses this name for this packet kind: written by hand where that is simple
+                        if kind != 'interest':
+                            continue
+                        wire = ts.tlv(5, ts.tlv(7, b''.join(name)) + ts.tlv(0x0a, b'\x00\x00\x00\x03') + ts.tlv(0x0c, b'\x64'))
+                    yield f'{kind}|{prefix}|{clabel}', wire
     elif which == 'alpha':
         L = 4 if tier == 'quick' else 5
         for n in range(3, L + 1):
@@ -487,7 +523,7 @@ def plan(tier, seed):
     for lo in range(0, nfr, ch):
         units.append({'kind': 'framing', 'lo': lo, 'hi': min(nfr, lo + ch), 'tier': tier, 'd': 1 if tier == 'quick' else 2})
     sizes = {'framing_cases': nfr}
-    for which in ('subst', 'trunc', 'edits', 'short', 'alpha'):
+    for which in ('subst', 'trunc', 'edits', 'short', 'alpha', 'long'):
         n = sum(1 for _ in mutation_space(tier, which))
         sizes[which] = n
         chunk = 2500
